@@ -23,7 +23,7 @@ class ShapeError(Exception):
 
 def broadcast(*shapes: tuple) -> tuple:
     shapes = tuple(s for s in shapes if s is not None)
-    if any(s == TOP for s in shapes):
+    if any(s == TOP or not isinstance(s, tuple) for s in shapes):
         return TOP
     nd = max((len(s) for s in shapes), default=0)
     out = []
@@ -61,11 +61,38 @@ REDUCERS = {"sum", "nansum", "max", "nanmax", "amax", "min", "nanmin", "amin", "
 IDENTITY_GLOBALS = {"fuzzylite.library.scalar", "fuzzylite.library.array", "fuzzylite.library.to_float", "float"}
 
 
+class ShapeOf:
+    """The value of `a.shape` / `np.shape(a)`: usable as the target of a reshape."""
+
+    def __init__(self, shape: tuple):
+        self.shape = shape
+
+
 class ShapeEval:
-    def __init__(self, env: Callable[[Term], tuple | None], call: Callable[[Term, "ShapeEval"], tuple | None] | None = None):
+    def __init__(self, env: Callable[[Term], tuple | None], call: Callable[[Term, "ShapeEval"], tuple | None] | None = None,
+                 protected: frozenset = frozenset()):
         self.env = env
         self.call_hook = call
         self.unknown: list[str] = []
+        # dimensions of the operands of an elementwise kernel: element [i, j] of the result may depend on element [i, j] of an operand only, so
+        # such a dimension is never reduced over, indexed away or concatenated along
+        self.protected = protected
+
+    def guard(self, d: Any, t: Term, how: str) -> None:
+        if d in self.protected:
+            raise ShapeError(f"`{show(t)[:70]}` {how} the dimension `{d}` of an operand: the elements of different rows / sample points are mixed "
+                             "(an elementwise kernel may only combine elements at the same position)")
+
+    def seq(self, t: Term) -> list | None:
+        """The shapes of the members of a sequence-valued term: a tuple / list display, or np.broadcast_arrays(...)."""
+        if t[0] in ("tuple", "list"):
+            return [self.ev(x) for x in t[1]]
+        if t[0] == "call" and t[1] == ("global", "numpy.broadcast_arrays"):
+            b = broadcast(*[self.ev(a) for a in t[2]])
+            return [b for _ in t[2]]
+        if t[0] == "call" and t[1][0] == "global" and t[1][1] in ("tuple", "list") and len(t[2]) == 1:
+            return self.seq(t[2][0])
+        return None
 
     def top(self, t: Term) -> tuple:
         self.unknown.append(show(t)[:60])
@@ -107,11 +134,17 @@ class ShapeEval:
         if k == "carried":
             return ()  # the seed of the accumulation is joined in by the enclosing phi
         if k == "attr":
+            if t[2] == "shape":
+                s = self.ev(t[1])
+                return s if s == TOP else ShapeOf(s)  # type: ignore[return-value]
             if t[2] == "T":
                 s = self.ev(t[1])
                 return s if s == TOP else tuple(reversed(s))
             return self.top(t)
         if k == "sub":
+            members = self.seq(t[1])
+            if members is not None and t[2][0] == "const" and isinstance(t[2][1], int) and -len(members) <= t[2][1] < len(members):
+                return members[t[2][1]]
             return self.index(self.ev(t[1]), t[2], t)
         if k == "call":
             return self.call(t)
@@ -135,7 +168,7 @@ class ShapeEval:
             elif it[0] == "list" and len(it[1]) == 1:
                 out.append(1)
             elif it[0] == "const" and isinstance(it[1], int) or (it[0] == "unop" and it[1] == "-"):
-                pass  # an integer index drops the dimension
+                self.guard(d, t, "picks one entry along")  # an integer index drops the dimension
             elif it[0] == "const" and it[1] is None:
                 out.append(1)
                 dims.insert(0, d)
@@ -163,12 +196,15 @@ class ShapeEval:
         if s == TOP:
             return TOP
         if axis is None:
+            for d in s:
+                self.guard(d, t, "reduces over")
             return tuple(1 for _ in s) if keepdims else ()
         if axis == "?" or not isinstance(axis, int):
             return self.top(t)
         if not -len(s) <= axis < len(s):
             raise ShapeError(f"`{show(t)[:60]}` reduces along axis {axis} of an array of shape {fmt(s)}")
         i = axis % len(s)
+        self.guard(s[i], t, "reduces over")
         return tuple((1 if j == i else d) for j, d in enumerate(s) if keepdims or j != i)
 
     ragged: Callable[[Term], bool] | None = None  # element terms whose shape differs from one element of a Python list to the next
@@ -216,6 +252,18 @@ class ShapeEval:
                     return s if s == TOP else tuple(reversed(s))
                 if short in REDUCERS and args:
                     return self.reduce(self.ev(args[0]), self.axis_of(kwargs, args, 1), keep, t)
+                if short == "shape" and len(args) == 1:
+                    s = self.ev(args[0])
+                    return s if s == TOP else ShapeOf(s)  # type: ignore[return-value]
+                if short == "reshape" and len(args) == 2:
+                    self.ev(args[0])
+                    target = self.ev(args[1]) if args[1][0] in ("attr", "call") else None
+                    return target.shape if isinstance(target, ShapeOf) else self.top(t)
+                if short in ("stack", "vstack", "hstack", "concatenate", "column_stack", "dstack", "row_stack") and args:
+                    members = self.seq(args[0])
+                    if members is None or any(m == TOP or isinstance(m, ShapeOf) for m in members):
+                        return self.top(t)
+                    return self.join(short, members, self.axis_of(kwargs, args, 1), t)
                 if short == "take" and args:
                     return ()
             return self.top(t)
@@ -229,10 +277,69 @@ class ShapeEval:
             if meth == "transpose" and not args:
                 s = self.ev(recv)
                 return s if s == TOP else tuple(reversed(s))
+            if meth == "reshape" and len(args) == 1:
+                self.ev(recv)  # whatever is wrong inside is still wrong after the reshape
+                target = self.ev(args[0]) if args[0][0] in ("attr", "call") else None
+                return target.shape if isinstance(target, ShapeOf) else self.top(t)
             if meth in ("flatten", "ravel"):
+                for d in (self.ev(recv) if self.protected else ()):
+                    if d != "?":
+                        self.guard(d, t, "flattens")
                 return ("k",)
             if meth == "item":
                 return ()
             if meth in REDUCERS:
                 return self.reduce(self.ev(recv), self.axis_of(kwargs, args, 0), keep, t)
         return self.top(t)
+
+
+def _merge(self: ShapeEval, dims: list, t: Term) -> Any:
+    """The dimension that results from laying arrays end to end along it."""
+    for d in dims:
+        self.guard(d, t, "lays arrays end to end along")
+    if all(isinstance(d, int) for d in dims):
+        return sum(dims) if sum(dims) != 1 else 1
+    return "+".join(str(d) for d in dims)
+
+
+def _join(self: ShapeEval, kind: str, members: list, axis: Any, t: Term) -> tuple:
+    if not members:
+        return self.top(t)
+    if kind == "stack":
+        if len(set(members)) != 1:
+            raise ShapeError(f"`{show(t)[:70]}` stacks arrays of different shapes {' and '.join(fmt(m) for m in members)} (numpy raises; nothing is broadcast)")
+        s = members[0]
+        a = 0 if axis is None else axis
+        if not isinstance(a, int) or not -len(s) - 1 <= a <= len(s):
+            return self.top(t)
+        a = a % (len(s) + 1)
+        return s[:a] + (len(members),) + s[a:]
+    if kind in ("vstack", "row_stack"):
+        members = [(1, 1) if len(m) == 0 else ((1,) + m if len(m) == 1 else m) for m in members]
+        axis = 0
+    elif kind == "hstack":
+        members = [(1,) if len(m) == 0 else m for m in members]
+        axis = 0 if len(members[0]) == 1 else 1
+    elif kind == "column_stack":
+        members = [(1, 1) if len(m) == 0 else (m + (1,) if len(m) == 1 else m) for m in members]
+        axis = 1
+    elif kind == "dstack":
+        return self.top(t)
+    else:
+        axis = 0 if axis is None else axis
+    if not isinstance(axis, int) or len({len(m) for m in members}) != 1 or not -len(members[0]) <= axis < len(members[0]):
+        return self.top(t)
+    axis = axis % len(members[0])
+    out = []
+    for j in range(len(members[0])):
+        dims = [m[j] for m in members]
+        if j == axis:
+            out.append(_merge(self, dims, t))
+        elif len(set(dims)) != 1:
+            raise ShapeError(f"`{show(t)[:70]}` joins arrays of shapes {' and '.join(fmt(m) for m in members)}, which differ off the joining axis")
+        else:
+            out.append(dims[0])
+    return tuple(out)
+
+
+ShapeEval.join = _join  # type: ignore[attr-defined]
